@@ -5,7 +5,8 @@ patch=$1; shift
 cd "$(dirname "$0")/.."
 if [ -n "$(git -C /repo status --porcelain --untracked-files=no)" ]; then echo "/repo is dirty"; exit 2; fi
 git -C /repo apply "$patch" || { echo "patch does not apply"; exit 2; }
-trap 'git -C /repo checkout -- . ; echo "[reverted]"' EXIT
+# the binaries in _build are rebuilt from the reverted tree too: a later manual sweep must not run mutated code
+trap 'git -C /repo checkout -- . ; python3 verif.py build fast san >/dev/null 2>&1; echo "[reverted]"' EXIT
 for id in "$@"; do
   s=$(date +%s)
   VERIF_EVIDENCE_DIR=/tmp/djsim_mut_evidence VERIF_REPLAY_DIR=/tmp/djsim_mut_replays python3 verif.py check $id --tier ${TIER:-quick} > /tmp/djsim_mut_$id.log 2>&1
